@@ -7,7 +7,7 @@
 (* against UciThreads.tla.  Every event must be the next step of the thread *)
 (* it names; the commands the driver sent tell the client's steps apart.    *)
 (*   prop "DRIFT": the thread model no longer describes the code.           *)
-(*   prop "C07" / "C04": an invariant of the session fails on the recorded  *)
+(*   prop "C07": an invariant of the session fails on the recorded          *)
 (*   execution (a go left unanswered when its search is collected, two      *)
 (*   bestmoves, a search ending without a line, a send on a dead channel).  *)
 (***************************************************************************)
@@ -44,7 +44,7 @@ TS_Report == /\ IsThread("S_Report")
              /\ LET s == Rec[l].s IN
                   /\ Diag("DRIFT", sst[s] = "run", [kind |-> "report from a search thread that is not running", search |-> s, at |-> Where])
                   /\ it' = [it EXCEPT ![s] = @ + 1] /\ status' = [status EXCEPT ![s] = @ + 1]
-                  /\ Diag("C04", Kind(root[s]) = "open", [kind |-> "a position without legal moves reported a line", search |-> s, at |-> Where])
+                  /\ Diag("C07", Kind(root[s]) = "open", [kind |-> "a position without legal moves reported a line", search |-> s, at |-> Where])
              /\ UNCHANGED <<gvars, cur, nid, main, root, sart, ctl, cst, sst, token, closed, wst, best, out, tst, panic, foreign>>
 
 \* the search thread leaves its iteration loop (silent) and tells its control thread
@@ -52,8 +52,8 @@ TS_SendStop ==
   /\ IsThread("S_SendStop")
   /\ LET s == Rec[l].s IN
        /\ Diag("DRIFT", sst[s] = "run", [kind |-> "search thread finished twice or before it started", search |-> s, at |-> Where])
-       /\ Diag("C04", Kind(root[s]) = "term" \/ it[s] >= 1, [kind |-> "search of a position with legal moves ended without reporting a line", search |-> s, stopped |-> token[s], at |-> Where])
-       /\ Diag("C04", cst[s] # "done", [kind |-> "search thread's Stop to its own control thread found the receiver gone (unwrap panics)", search |-> s, at |-> Where])
+       /\ Diag("C07", Kind(root[s]) = "term" \/ it[s] >= 1, [kind |-> "search of a position with legal moves ended without reporting a line (its go cannot be answered)", search |-> s, stopped |-> token[s], at |-> Where])
+       /\ Diag("C07", cst[s] # "done", [kind |-> "search thread's Stop to its own control thread found the receiver gone (unwrap panics)", search |-> s, at |-> Where])
        /\ sst' = [sst EXCEPT ![s] = "exit"]
        /\ ctl' = [ctl EXCEPT ![s] = IF cst[s] = "done" THEN @ ELSE @ + 1]
   /\ UNCHANGED <<gvars, cur, nid, main, root, sart, cst, it, token, status, closed, wst, best, out, tst, panic, foreign>>
